@@ -250,7 +250,7 @@ class MultiGeoPoint(MultiShapeBase, PointLikeMixin, SimpleShapeMixin):
         }
 
     def __hash__(self) -> int:
-        return hash(tuple(hash(x) for x in self.geoshapes))
+        return hash(frozenset(self.geoshapes))
 
     def __repr__(self):
         pl = "s" if len(self.geoshapes) != 1 else ""
